@@ -130,4 +130,42 @@ theorem cutAt_of_decomp (sep : UInt8) (pre post : Bytes) (h : sep ∉ pre) :
     have hcs : sep ∉ cs := fun e => h (by simp [e])
     simp [cutAt, hc, ih hcs]
 
+/-! ### specification-level formulation of the output split -/
+
+theorem cutAt_eq (sep : UInt8) (l : Bytes) :
+    cutAt sep l = (l.takeWhile (· ≠ sep), if l.contains sep then some ((l.dropWhile (· ≠ sep)).drop 1) else none) := by
+  induction l with
+  | nil => simp [cutAt]
+  | cons c cs ih =>
+    by_cases hc : c = sep
+    · subst hc; simp [cutAt]
+    · simp [cutAt, hc, ih, Ne.symm hc]
+
+theorem splitLine_eq (line : Bytes) : splitLine line = (textPart line, perfPart line) := by
+  unfold splitLine textPart perfPart
+  rw [cutAt_eq]
+  by_cases hb : BAR ∈ line
+  · by_cases he : EQ ∈ (List.dropWhile (fun x => !decide (x = BAR)) line).tail
+    · simp [hb, he]
+    · simp [hb, he]
+  · simp [hb]
+
+def joinQuirkFrom (sep : UInt8) (acc : Bytes) (parts : List Bytes) : Bytes :=
+  parts.foldl (fun acc x => if acc.isEmpty then x else acc ++ sep :: x) acc
+
+theorem foldl_parseStep (L : List Bytes) (t p : Bytes) :
+    L.foldl parseStep (t, p) = (joinQuirkFrom LF t (L.map textPart), joinQuirkFrom SPACE p (L.filterMap perfPart)) := by
+  induction L generalizing t p with
+  | nil => simp [joinQuirkFrom]
+  | cons x xs ih =>
+    simp only [List.foldl_cons, parseStep, splitLine_eq]
+    cases hp : perfPart x with
+    | none => simp [ih, joinQuirkFrom, appendSep, hp]
+    | some pf => simp [ih, joinQuirkFrom, appendSep, hp]
+
+theorem specState_eq (e : Int) : specState e = exitToState e := by
+  unfold specState exitToState
+  split <;> simp_all
+
+
 end Icinga.C09
